@@ -42,13 +42,19 @@ impl Drop for RawOwner {
 
 /// custom owner that keeps another buffer alive (what an imported FFI array does)
 struct Holder {
-    #[allow(dead_code)]
     buf: Buffer,
     drops: Arc<AtomicUsize>,
 }
 impl Drop for Holder {
     fn drop(&mut self) {
         self.drops.fetch_add(1, Ordering::SeqCst);
+    }
+}
+
+struct HolderBytes(Holder);
+impl AsRef<[u8]> for HolderBytes {
+    fn as_ref(&self) -> &[u8] {
+        self.0.buf.as_slice()
     }
 }
 
@@ -71,6 +77,7 @@ struct Exec {
     good_ops: usize,
 }
 
+const RT_KINDS: usize = 1;
 const NPOOLS: usize = 3;
 const HOWS: usize = 2;
 /// `used()` of every pool, `a.b.c`
@@ -87,8 +94,15 @@ fn digest(b: &[u8]) -> u64 {
 fn show_slot(s: &Slot) -> String {
     match s {
         Slot::Empty => "e".into(),
-        Slot::Buf(b, _) => format!("b{}.{}", b.len(), digest(b.as_slice())),
-        Slot::Mut(m, _) => format!("m{}.{}", m.len(), digest(m.as_slice())),
+        Slot::Buf(b, _) => format!(
+            "b{}.{}.c{}.o{}.k{}",
+            b.len(),
+            digest(b.as_slice()),
+            b.strong_count(),
+            b.ptr_offset(),
+            b.capacity()
+        ),
+        Slot::Mut(m, _) => format!("m{}.{}.k{}", m.len(), digest(m.as_slice()), m.capacity()),
     }
 }
 
@@ -156,13 +170,79 @@ impl Exec {
         std::mem::replace(&mut self.slots[i], Slot::Empty)
     }
 
+    /// a length-changing `MutableBuffer` call.  Known finding (`finding:mutlen-claimed`):
+    /// `truncate` / `resize` / `clear` resize a claimed reservation to `len` although the capacity
+    /// says otherwise.  The deviation is reported on its own (oracle) and the capacity-based
+    /// reservation is restored so that the rest of the history is still compared exactly.
+    fn len_op(&mut self, i: usize, name: &str, f: impl FnOnce(&mut MutableBuffer)) -> Option<&'static str> {
+        let mut drift: Option<(String, String)> = None;
+        let hit;
+        match self.slots.get_mut(i) {
+            Some(Slot::Mut(m, r)) => {
+                hit = self.claimed[*r];
+                let before = used_all(&self.pools);
+                let cap_before = m.capacity();
+                f(m);
+                if let Some(p) = hit {
+                    // what the pools must show: only the capacity change of this region
+                    let mut want: Vec<usize> = before.split('.').map(|x| x.parse().unwrap()).collect();
+                    want[p] = want[p] + m.capacity() - cap_before;
+                    let want = want.iter().map(|x| x.to_string()).collect::<Vec<_>>().join(".");
+                    let after = used_all(&self.pools);
+                    if after != want {
+                        drift = Some((want, after));
+                        m.claim(&self.pools[p]);
+                    }
+                }
+            }
+            _ => return None,
+        }
+        if hit.is_some() {
+            self.tag(&format!("{}:claimed", name));
+        }
+        if let Some((want, got)) = drift {
+            self.oracle.push(format!(
+                "KNOWN:finding:{}|MutableBuffer::{} on a claimed buffer left the pools at {} where the capacities say {}",
+                if name == "ms" { "mutshrink0-claimed" } else { "mutlen-claimed" },
+                match name { "tr" => "truncate", "rs" => "resize", "ms" => "shrink_to_fit", _ => "clear" }, got, want
+            ));
+        }
+        Some("ok")
+    }
+
+    /// read-only round trips through other owners of the same memory, dropped again before
+    /// returning: nothing observable may change
+    fn round_trip(&mut self, bufs: Vec<Buffer>, kind: usize) {
+        let _ = kind;
+        for b in bufs.iter().filter(|b| !b.is_empty()) {
+            let expect = b.as_slice().to_vec();
+            let sc = b.strong_count();
+            // Buffer → bytes::Bytes (owner = the buffer) → sub-slice → Buffer (owner = the bytes)
+            let by: bytes::Bytes = bytes::Bytes::from(b.clone());
+            let mid = by.len() / 2;
+            let back = Buffer::from(by.slice(mid..));
+            drop(by);
+            if back.as_slice() != &expect[mid..] || b.strong_count() != sc + 1 {
+                self.oracle.push("bytes::Bytes round trip: content or count wrong".into());
+            }
+            if back.clone().into_mutable().is_ok() {
+                self.oracle.push("a buffer owned by bytes::Bytes was made mutable".into());
+            }
+            drop(back);
+            if b.strong_count() != sc {
+                self.oracle.push("bytes::Bytes round trip leaked a reference".into());
+            }
+        }
+        self.tag("rt:bytes");
+    }
+
     /// slots an op consumes / overwrites (mirror of `Op.targets` in the Lean model)
     fn targets(f: &[&str]) -> Vec<usize> {
         let us = |k: usize| f.get(k).and_then(|x| x.parse::<usize>().ok()).unwrap_or(usize::MAX);
         match f[0] {
-            "av" | "am" | "ac" => vec![us(1)],
+            "av" | "am" | "ac" | "as" | "az" => vec![us(1)],
             "cl" | "sl" | "wp" => vec![us(2)],
-            "dr" | "im" | "iv" | "fz" | "wr" | "ex" | "tr" | "ba" => vec![us(1)],
+            "dr" | "im" | "iv" | "fz" | "wr" | "ex" | "tr" | "ba" | "rs" | "mc" | "sf" | "ms" | "bm" => vec![us(1)],
             _ => vec![],
         }
     }
@@ -187,7 +267,7 @@ impl Exec {
                 if !(self.is_empty(d) && len <= cap) {
                     return None;
                 }
-                let mut m = MutableBuffer::with_capacity(cap);
+                let mut m = if seed % 2 == 0 { MutableBuffer::with_capacity(cap) } else { MutableBuffer::new(cap) };
                 m.extend_from_slice(&pattern(seed, len));
                 let r = self.new_rid();
                 self.slots[d] = Slot::Mut(m, r);
@@ -215,16 +295,35 @@ impl Exec {
                 if !self.is_empty(d) {
                     return None;
                 }
+                {
+                    let (orig, _) = self.buf(i)?;
+                    if !b.ptr_eq(orig) || b.data_ptr() != orig.data_ptr() || b.as_ptr() != orig.as_ptr() {
+                        self.oracle.push("a clone does not point at the same memory".into());
+                    }
+                }
                 self.slots[d] = Slot::Buf(b, r);
                 Some("ok")
             })(),
-            ("sl", 4) => (|| {
+            ("sl", 4 | 5) => (|| {
                 let (i, d, off, len) = (g(0)?, g(1)?, g(2)?, g(3)?);
+                let how = if n.len() > 4 { g(4)? } else { 0 };
                 let (b, r) = self.buf(i)?;
                 if !self.is_empty(d) {
                     return None;
                 }
-                match catch_unwind(AssertUnwindSafe(|| b.slice_with_length(off, len))) {
+                // entry points to the same O(1) view: slice_with_length, slice (to the end),
+                // clone + advance, byte-aligned bit_slice
+                let whole = b.len();
+                match catch_unwind(AssertUnwindSafe(|| match how {
+                    1 if off + len == whole => b.slice(off),
+                    2 if off + len <= whole => {
+                        let mut c = b.clone();
+                        c.advance(off);
+                        c.slice_with_length(0, len)
+                    }
+                    3 if off + len <= whole => b.bit_slice(8 * off, 8 * len),
+                    _ => b.slice_with_length(off, len),
+                })) {
                     Ok(nb) => {
                         self.slots[d] = Slot::Buf(nb, r);
                         Some("ok")
@@ -305,7 +404,18 @@ impl Exec {
                 let r = match self.slots.get_mut(i) {
                     Some(Slot::Mut(m, _)) => {
                         let c = m.capacity();
-                        m.extend_from_slice(&vec![(val % 256) as u8; k]);
+                        // entry points to the same growth rule: extend_from_slice, reserve + push,
+                        // extend_zeros
+                        match val % 3 {
+                            1 => {
+                                m.reserve(k);
+                                for _ in 0..k {
+                                    m.push((val % 256) as u8);
+                                }
+                            }
+                            2 if val % 256 == 0 => m.extend_zeros(k),
+                            _ => m.extend_from_slice(&vec![(val % 256) as u8; k]),
+                        }
                         realloc = m.capacity() != c;
                         Some("ok")
                     }
@@ -318,36 +428,67 @@ impl Exec {
             })(),
             ("tr", 2) => (|| {
                 let (i, len) = (g(0)?, g(1)?);
-                let mut drift: Option<(String, String)> = None;
-                let mut hit = false;
-                let r = match self.slots.get_mut(i) {
-                    Some(Slot::Mut(m, r)) => {
-                        hit = self.claimed[*r].is_some();
-                        let before = used_all(&self.pools);
-                        m.truncate(len);
-                        let after = used_all(&self.pools);
-                        if hit && after != before {
-                            // known finding: `truncate` resizes the reservation to `len` although
-                            // the capacity is unchanged.  Report it on its own (oracle), then
-                            // restore the capacity-based reservation so that the rest of the
-                            // history is still compared exactly against the model.
-                            drift = Some((before, after));
-                            m.claim(&self.pools[self.claimed[*r].unwrap()]);
-                        }
+                self.len_op(i, "tr", |m| m.truncate(len))
+            })(),
+            ("rs", 3) => (|| {
+                let (i, len, val) = (g(0)?, g(1)?, g(2)?);
+                self.len_op(i, "rs", |m| m.resize(len, (val % 256) as u8))
+            })(),
+            ("mc", 1) => (|| {
+                let i = g(0)?;
+                self.len_op(i, "mc", |m| m.clear())
+            })(),
+            ("ms", 1) => (|| {
+                let i = g(0)?;
+                self.len_op(i, "ms", |m| m.shrink_to_fit())
+            })(),
+            ("sf", 1) => (|| {
+                let i = g(0)?;
+                match self.slots.get_mut(i) {
+                    Some(Slot::Buf(b, _)) => {
+                        let c = b.capacity();
+                        b.shrink_to_fit();
+                        let shrunk = b.capacity() != c;
+                        self.tag(if shrunk { "sf:shrunk" } else { "sf:noop" });
                         Some("ok")
                     }
                     _ => None,
-                };
-                if hit {
-                    self.tag("tr:claimed");
                 }
-                if let Some((b, a)) = drift {
-                    self.oracle.push(format!(
-                        "KNOWN:finding:mutlen-claimed|MutableBuffer::truncate on a claimed buffer changed the pools' used() from {} to {} although its capacity is unchanged",
-                        b, a
-                    ));
+            })(),
+            ("as", 3) => (|| {
+                let (d, len, seed) = (g(0)?, g(1)?, g(2)?);
+                if !self.is_empty(d) {
+                    return None;
                 }
-                r
+                let pat = pattern(seed, len);
+                let b = if seed % 2 == 0 { Buffer::from_slice_ref(&pat) } else { Buffer::from(&pat[..]) };
+                let r = self.new_rid();
+                self.slots[d] = Slot::Buf(b, r);
+                Some("ok")
+            })(),
+            ("az", 2) => (|| {
+                let (d, len) = (g(0)?, g(1)?);
+                if !self.is_empty(d) {
+                    return None;
+                }
+                let m = MutableBuffer::from_len_zeroed(len);
+                let r = self.new_rid();
+                self.slots[d] = Slot::Mut(m, r);
+                Some("ok")
+            })(),
+            ("rt", _) if f.len() >= 2 => (|| {
+                let srcs: Option<Vec<usize>> = f[1].split('+').map(|x| x.parse::<usize>().ok()).collect();
+                let srcs = srcs?;
+                let kind = f.get(2).and_then(|x| x.parse::<usize>().ok()).unwrap_or(0);
+                let mut bufs = vec![];
+                for i in &srcs {
+                    bufs.push(self.buf(*i)?.0.clone());
+                }
+                if bufs.is_empty() || !bufs.iter().all(|b| b.len() == bufs[0].len()) {
+                    return None;
+                }
+                self.round_trip(bufs, kind);
+                Some("ok")
             })(),
             ("cm", 1 | 2 | 3) => (|| {
                 // cm:<slot>[:<pool>[:<how>]]  how: 0 Buffer::claim, 1 BooleanBuffer::claim
@@ -383,16 +524,25 @@ impl Exec {
                 self.tag("cm");
                 Some("ok")
             })(),
-            ("wp", 4) => (|| {
+            ("wp", 4 | 5) => (|| {
                 let (i, d, off, len) = (g(0)?, g(1)?, g(2)?, g(3)?);
+                let how = if n.len() > 4 { g(4)? } else { 0 };
                 let (b, _) = self.buf(i)?;
                 if off + len > b.len() || !self.is_empty(d) {
                     return None;
                 }
                 let drops = Arc::new(AtomicUsize::new(0));
                 let ptr = NonNull::new(unsafe { b.as_ptr().add(off) } as *mut u8).unwrap();
-                let owner: Arc<dyn Allocation> = Arc::new(Holder { buf: b.clone(), drops: drops.clone() });
-                let nb = unsafe { Buffer::from_custom_allocation(ptr, len, owner) };
+                let nb = if how == 1 && len > 0 {
+                    // the owner is a `bytes::Bytes` that owns (a counting wrapper of) the buffer:
+                    // `From<bytes::Bytes> for Buffer`
+                    let by = bytes::Bytes::from_owner(HolderBytes(Holder { buf: b.clone(), drops: drops.clone() }));
+                    self.tags.insert("wp:bytes".to_string());
+                    Buffer::from(by.slice(off..off + len))
+                } else {
+                    let owner: Arc<dyn Allocation> = Arc::new(Holder { buf: b.clone(), drops: drops.clone() });
+                    unsafe { Buffer::from_custom_allocation(ptr, len, owner) }
+                };
                 self.owners.push(drops);
                 let r = self.new_rid();
                 self.slots[d] = Slot::Buf(nb, r);
@@ -502,6 +652,12 @@ fn run_hist(nslots: usize, ops: &str) -> (String, String, Vec<String>) {
                 }
             }
             snaps[i] = now;
+        }
+        // oracle: the pool's other accessors agree with used()
+        for p in &ex.pools {
+            if p.allocated() != p.used() || p.available() != isize::MAX - p.used() as isize || p.capacity() != usize::MAX {
+                ex.oracle.push(format!("step {} ({}): pool accessors disagree with used()", k, tok));
+            }
         }
         // oracle 2: no owner dropped twice
         if ndrops.iter().any(|c| *c > 1) {
@@ -613,6 +769,25 @@ fn gen_hist(rng: &mut Rng) -> String {
         let lens = [0usize, 1, 3, 8, 9, 16, 24, 40, 64, 65];
         let tok = loop {
             let r = rng.below(100);
+            // constructors / capacity operations / round trips added by the coverage audit
+            if rng.chance(1, 6) {
+                match rng.below(7) {
+                    0 if !empties.is_empty() => break format!("as:{}:{}:{}", rng.pick(&empties), rng.pick(&lens), rng.usize(256)),
+                    1 if !empties.is_empty() => break format!("az:{}:{}", rng.pick(&empties), rng.pick(&lens)),
+                    2 if !muts.is_empty() => {
+                        let i = *rng.pick(&muts);
+                        let len = match &ex.slots[i] {
+                            Slot::Mut(m, _) => m.len(),
+                            _ => 0,
+                        };
+                        break format!("rs:{}:{}:{}", i, *rng.pick(&[0usize, len.saturating_sub(1), len, len + 1, 63, 64, 65, 129, 300]), rng.usize(256));
+                    }
+                    3 if !muts.is_empty() => break format!("{}:{}", rng.pick(&["mc", "ms", "ms"]), rng.pick(&muts)),
+                    4 | 5 if !bufs.is_empty() => break format!("sf:{}", rng.pick(&bufs)),
+                    6 if !bufs.is_empty() => break format!("rt:{}:{}", rng.pick(&bufs), rng.usize(RT_KINDS)),
+                    _ => {}
+                }
+            }
             // occasionally a deliberately inapplicable op
             if r < 2 {
                 break format!("{}:{}", rng.pick(&["dr", "im", "fz", "cm"]), rng.usize(n + 1));
@@ -642,11 +817,11 @@ fn gen_hist(rng: &mut Rng) -> String {
                         // offsets biased to 0 (keeps into_mutable possible) and to the ends
                         let off = if rng.bool() { 0 } else { rng.usize(len + 1) };
                         let l = if rng.chance(1, 12) { len + 1 } else { rng.usize(len - off + 1) };
-                        format!("sl:{}:{}:{}:{}", i, d, off, l)
+                        format!("sl:{}:{}:{}:{}:{}", i, d, off, l, rng.usize(4))
                     }
                     2 => {
                         let off = rng.usize(len + 1);
-                        format!("wp:{}:{}:{}:{}", i, d, off, rng.usize(len - off + 1))
+                        format!("wp:{}:{}:{}:{}:{}", i, d, off, rng.usize(len - off + 1), rng.usize(2))
                     }
                     _ => format!("cl:{}:{}", i, d),
                 };
@@ -717,6 +892,93 @@ fn gen_hist(rng: &mut Rng) -> String {
     format!("C16 hist {} {}", n, toks.join(";"))
 }
 
+/// A fixed, deterministic block of boundary histories run in EVERY generation (a corpus
+/// generated in code): every allocation kind × every sharing situation × every conversion /
+/// in-place entry point, followed by re-claims into another pool and by dropping everything;
+/// plus capacity arithmetic on the 64-byte boundaries and `into_vec` element-size boundaries.
+const HIST: &str = "hist";
+const BLOCK_OPS: [(&str, &str); 8] = [
+    ("into_mutable", "im:0;fz:0"),
+    ("into_mutable-write", "im:0;wr:0:0:255;ex:0:70:1;fz:0"),
+    ("into_vec1", "iv:0:1"),
+    ("into_vec4", "iv:0:4"),
+    ("shrink", "sf:0"),
+    ("bit-assign", "ba:0:3:x:3:7"),
+    ("bit-assign-0", "ba:0:3:a:0:16"),
+    ("bytes-roundtrip", "rt:0:0"),
+];
+fn block_cases() -> Vec<String> {
+    let mut out = vec![];
+    let allocs: [(&str, &str); 8] = [
+        ("vec1", "av:0:16:16:1:5"),
+        ("vec1cap", "av:0:8:24:1:9"),
+        ("vec4", "av:0:16:16:4:3"),
+        ("vec8cap", "av:0:8:32:8:1"),
+        ("slice_ref", "as:0:10:7"),
+        ("mutable", "am:0:3:100:11;fz:0"),
+        ("zeroed", "az:0:64;fz:0"),
+        ("custom", "ac:0:16:2"),
+    ];
+    let sharing: [(&str, &str); 8] = [
+        ("unique", ""),
+        ("cloned", "cl:0:1"),
+        ("clone-dropped", "cl:0:1;dr:1"),
+        ("prefix", "sl:0:1:0:3:0;dr:0;cl:1:0;dr:1"),
+        ("offset", "sl:0:1:1:2:2;dr:0;cl:1:0;dr:1"),
+        ("empty-tail", "sl:0:1:3:0:0;dr:0;cl:1:0;dr:1"),
+        ("wrapped", "wp:0:1:1:2:0"),
+        ("wrapper-dropped", "wp:0:1:0:2:1;dr:1"),
+    ];
+    let ops: Vec<(&str, &str)> = BLOCK_OPS.to_vec();
+    for (an, a) in allocs.iter() {
+        for (sn, sh) in sharing.iter() {
+            for (on, o) in ops.iter() {
+                // slot 3: an operand for the binary ops; pool 0 claim first, pool 1 re-claim after
+                let mut h = vec![a.to_string(), "av:3:16:16:1:77".to_string()];
+                if !sh.is_empty() {
+                    h.push(sh.to_string());
+                }
+                h.push("cm:0:0:0".into());
+                h.push(o.to_string());
+                h.push("cm:0:1:0;cm:3:2:1;cm:0:2:0".into());
+                h.push("dr:0;dr:1;dr:2;dr:3".into());
+                out.push(format!("C16 {} 4 {}\tblk:{}:{}:{}", HIST, h.join(";"), an, sn, on));
+            }
+        }
+    }
+    // capacity arithmetic on the rounding / doubling boundaries, claimed throughout
+    for len in [0usize, 1, 63, 64, 65, 127, 128, 129] {
+        for cap_extra in [0usize, 1, 64] {
+            let cap = len + cap_extra;
+            let cap64 = (cap + 63) / 64 * 64;
+            for n in [0usize, 1, cap64 - len, cap64 - len + 1, 2 * cap64 + 1] {
+                out.push(format!(
+                    "C16 {} 2 am:0:{}:{}:1;cm:0:0;ex:0:{}:7;cm:0:1;ms:0;ex:0:1:9;ms:0;fz:0;sf:0;cl:0:1;sf:0;dr:1;sf:0;cm:0:2;im:0;ms:0;dr:0\tblk:cap:{}:{}:{}",
+                    HIST, len, cap, n, len, cap_extra, n
+                ));
+            }
+            for to in [0usize, len.saturating_sub(1), len, len + 1, 64, 65] {
+                out.push(format!(
+                    "C16 {} 2 am:0:{}:{}:3;rs:0:{}:5;cm:0:1;rs:0:{}:6;mc:0;ms:0;fz:0;sf:0;dr:0\tblk:resize:{}:{}:{}",
+                    HIST, len, cap, to, len, len, cap_extra, to
+                ));
+            }
+        }
+    }
+    // into_vec: element size × length that is / is not a multiple of it × capacity
+    for t in [1usize, 2, 4, 8] {
+        for t2 in [1usize, 2, 4, 8] {
+            for k in [0usize, 1, t, t + 1, 2 * t] {
+                out.push(format!(
+                    "C16 {} 3 av:0:{}:{}:{}:4;sl:0:1:0:{}:0;iv:1:{};dr:0;iv:1:{};cm:1:0;iv:1:{};sf:1;dr:1\tblk:intovec:{}:{}:{}",
+                    HIST, 2 * t, 4 * t, t, k, t2, t2, t, t, t2, k
+                ));
+            }
+        }
+    }
+    out
+}
+
 fn main() {
     let args = parse_args();
     if std::env::var("VERIF_LOUD").is_err() {
@@ -743,6 +1005,11 @@ fn main() {
     } else {
         let mut rng = Rng::new(args.seed ^ 0xC16);
         let n = n_cases(&args, 4000, 150000);
+        for c in block_cases() {
+            let (line, tag) = c.split_once('\t').unwrap();
+            let group = tag.split(':').take(2).collect::<Vec<_>>().join(":");
+            emit(&mut sink, line.to_string(), &format!("{} {}", tag, group));
+        }
         for _ in 0..n {
             let line = gen_hist(&mut rng);
             emit(&mut sink, line, "");
